@@ -93,6 +93,8 @@ def dump_mir(kind):
         stem = re.sub(r'-[0-9a-f]{16}$', '', os.path.basename(f)[:-4])
         by.setdefault(stem, []).append(f)
     for stem, fs in by.items():
+        if not (stem.startswith('clock_bound') or stem.startswith('clockbound') or stem.startswith('verif')):
+            continue      # dependencies legitimately exist in several versions (nix 0.26 / 0.27)
         fs.sort(key=os.path.getmtime)
         for f in fs[:-1]:
             os.remove(f)
@@ -309,11 +311,13 @@ class Prover:
         self.samples.append({'obligation': name, 'verdict': 'unknown:' + self.s.reason_unknown(), 'solver_s': round(dt, 3)})
         return 'unknown'
 
-    def prove_cegar(self, name, pc, claim, confirm, refine, rounds=40, need_reach=True):
+    def prove_cegar(self, name, pc, claim, confirm, refine, rounds=40, need_reach=True, hints=None):
         """prove, and when the solver returns a model: `confirm(model)` replays it on the real code and
         returns a description if the violation is real.  A model that does not reproduce is used to refine the
         over-approximated parts of the encoding (`refine(model)` returns new true facts) and the query is
-        repeated.  returns 'proved' | 'trivial' | ('violation', what, model) | 'unknown' | 'spurious' """
+        repeated.  `hints`: extra constraints used ONLY to search for a replayable counterexample (e.g. wire
+        values that survive the chrony float round trip); they never contribute to an unsat verdict.
+        returns 'proved' | 'trivial' | ('violation', what, model) | 'unknown' | 'spurious' """
         self.refinements = getattr(self, 'refinements', 0)
         for k in range(rounds):
             res = self.prove(name, pc, claim, need_reach=need_reach)
@@ -323,6 +327,13 @@ class Prover:
             what = confirm(m)
             if what:
                 return ('violation', what, m)
+            if hints:
+                for hs in hints:
+                    r2, m2, dt2 = self.check(pc, z3.Not(claim), *hs)
+                    if r2 == z3.sat:
+                        what = confirm(m2)
+                        if what:
+                            return ('violation', what, m2)
             self.failed.pop()
             lemmas = refine(m)
             if not lemmas:
